@@ -164,7 +164,9 @@ pub fn case(rng: &mut Rng) -> String {
             let n = 2 + rng.below(3);
             let tp = TreeParams { in_dim: n, out_dim: 1 + rng.below(2), max_depth: 2, partial16: *rng.pick(&[0, 3]), holes: false, palette: 0 };
             let g: AffTree<2> = rand_tree(rng, &tp);
-            let mut refp = rand_int_vec(rng, n);
+            // the reference point: an integer vector, or a point that lies on a decision hyperplane of g (then a
+            // decision whose variables are all fixed becomes the constant predicate `0 <= 0` in the slice)
+            let mut refp = if rng.chance(1, 2) { rand_int_vec(rng, n) } else { rand_points(rng, &g, 1).pop().unwrap_or_else(|| Array1::zeros(n)) };
             let mut mask = Vec::new();
             for j in 0..n {
                 let keep = rng.chance(1, 2);
@@ -177,13 +179,20 @@ pub fn case(rng: &mut Rng) -> String {
                 mask[0] = true;
                 refp[0] = f64::NAN;
             }
-            out.push_str("slice ");
+            // both spellings of the composition: without pruning (compared with the model tree) and with pruning on
+            // the fly (the restriction law is the same; the tree is only evaluated)
+            let pruned = rng.chance(1, 3);
+            out.push_str(if pruned { "sliceP " } else { "slice " });
             enc::afftree(&mut out, &g);
             out.push(' ');
             enc::vec(&mut out, &refp);
             let t = build(|| {
                 let mut s = AffTree::<2>::from_slice(&refp);
-                s.compose::<false, false>(&g);
+                if pruned {
+                    s.compose::<true, false>(&g);
+                } else {
+                    s.compose::<false, false>(&g);
+                }
                 s.remove_axes(&Array1::from_vec(mask.clone())).unwrap();
                 s
             });
